@@ -286,6 +286,8 @@ def _parse_nh_sample(text, suffixes):
                 raise ValueError
             name = labels['__name__']
             del labels['__name__']
+            if name.endswith(suffixes):
+                raise ValueError("the sample name of a native histogram with labels should have no suffixes", name)
             # Edge case: the only "label" is the name definition.
             if not labels:
                 labels = None
